@@ -59,13 +59,14 @@ def run(R):
         b = tonic.body('client::grpc::GrpcConfig::prepare_request')
         R.saw(b)
         ib, it = b.call1(name='into_http')
-        m = constdef(b.origin(it['args'][2]))
-        v = constdef(b.origin(it['args'][3]))
-        sz = strip_refs(b.origin(it['args'][4]))
-        R.check(m is not None and m.endswith('Method::' + W['method']), 'C03.R1', 'method', site(b, ib), 'method = %s' % show(b.origin(it['args'][2])))
-        R.check(v is not None and v.endswith('Version::' + W['version']), 'C03.R1', 'version', site(b, ib), 'version = %s' % show(b.origin(it['args'][3])))
+        ln = into_http_line(b, it)
+        m = constdef(ln['method'])
+        v = constdef(ln['version'])
+        sz = strip_refs(ln['sanitize'])
+        R.check(m is not None and m.endswith('Method::' + W['method']), 'C03.R1', 'method', site(b, ib), 'method = %s' % show(ln['method']))
+        R.check(v is not None and v.endswith('Version::' + W['version']), 'C03.R1', 'version', site(b, ib), 'version = %s' % show(ln['version']))
         R.check(sz[0] == 'agg' and sz[1].get('variant') == 'Yes', 'C03.R1', 'sanitize-yes', site(b, ib), 'sanitize = %s' % show(sz))
-        uri = b.origin(it['args'][1])
+        uri = ln['uri']
         R.check(mentions_call(uri, name='from_parts'), 'C03.R1', 'uri-from-parts', site(b, ib), 'uri = %s' % show(uri)[:120])
         ins = b.calls(pat='HeaderMap', name='insert')
         got = {}
@@ -201,6 +202,8 @@ def run(R):
         for bb_, t_, ok_ in takes_:
             R.check(ok_, 'C03.R3', 'data-frame=whole-buffer', site(pn_, bb_), 'the bytes handed out are the whole batch buffer (split_to(len) / split()): %r — a partial take (split_off, split_to(n)) puts a torn message on the wire' % ok_)
         R.floor('C03.R3', 'buffer takes in poll_next', len(takes_), 1)
+        # .. and only whole messages are in that buffer: a failed encode (limit, codec error, compressor) is cut off first
+        check_partial_frame_cut(R, tonic, 'C03.R3')
 
     # ---------------------------------------------------------------- R4 announced encoding
     R.describe('C03.R4', 'the encoding announced in grpc-encoding is the one handed to the encoder, whose flag is is_some(effective encoding); tokens/codecs per spec table')
